@@ -464,13 +464,27 @@ inductive Act where
   | done
   | fail (e : Err)
 
+/-- **after an exception**: does the iterator object of the stage go on with the next element at the next
+    `next()`?  `map` / `filter` objects and `itertools.takewhile` / `dropwhile` do (the exception of their
+    function, or one coming from below, just passes through).  A GENERATOR is finished for good once an
+    exception propagates out of it: `_iterate`, boltons' `chunked_iter` / `split_iter` / `unique_iter`; and
+    `islice` and `chain.from_iterable` drop their source on any error.  (`windowed_iter`'s `zip(*tees)` goes
+    on with its tees out of step — windows like `(4, 4)`: not modelled, see ASSUMPTIONS.) -/
+def Kind.survives : Kind → Bool
+  | .map _ | .filter _ | .takewhile _ | .dropwhile _ => true
+  | _ => false
+
+/-- the stage after an exception has passed through it (its own, or one from below) -/
+def StageSt.afterError (s : StageSt) : StageSt :=
+  if s.core.kind.survives then { s with err := none } else { s with err := none, out := [], stopped := true }
+
 /-- the stage is asked for its next item -/
 def StageSt.poll (s : StageSt) : Act × StageSt :=
   match s.out with
   | v :: o => (.emit v, { s with out := o })
   | [] =>
     match s.err with
-    | some e => (.fail e, s)
+    | some e => (.fail e, s.afterError)          -- the exception is raised ONCE
     | none => if s.stopped then (.done, s) else (.pull, s)
 
 /-- the answer to a pull: an item, or `none` when upstream is exhausted -/
@@ -520,7 +534,7 @@ def pullFrom (src : Src) : Nat → List StageSt → Nat → Res × List StageSt 
       match pullFrom src fuel rest pos with
       | (.item v, rest', pos') => pullFrom src fuel (st'.feed (some v) :: rest') pos'
       | (.eof, rest', pos') => pullFrom src fuel (st'.feed none :: rest') pos'
-      | (.err e, rest', pos') => (.err e, st' :: rest', pos')
+      | (.err e, rest', pos') => (.err e, st'.afterError :: rest', pos')     -- an exception from below passes through
       | (.oof, rest', pos') => (.oof, st' :: rest', pos')
 
 /-! ### `glomit`: building the iterator chain -/
